@@ -255,12 +255,16 @@ def replay_pstep(sc):
 
     model = MertonModel(parameters=MertonParameters(sigma=0.1, intensity=2.0, mu_j=0.1, sigma_j=0.3))
     grid = GS.CTMCGridProbabilityStep(h=0.1, model=model, minimum_probability_step=0.2)
-    old = np.array(grid.axes[0], dtype=float)
-    grid.refine()
-    ax = np.array(grid.axes[0], dtype=float)
-    piv = int(grid.origin_coordinate.value)
     nu = model.levy_triplet.nu.integrate
     bad = []
+    for step in range(max(1, sc.get("k", 2))):
+        old = np.array(grid.axes[0], dtype=float)
+        grid.refine()
+        ax = np.array(grid.axes[0], dtype=float)
+        if np.any(np.diff(ax) <= 0):
+            bad.append(f"after {step + 1} refinement(s) the axis is not strictly increasing around the origin: {ax[max(0, len(ax) // 2 - 4):len(ax) // 2 + 5].round(5).tolist()}")
+            break
+    piv = int(grid.origin_coordinate.value)
     if not (abs(ax[piv]) < 1e-12 and abs(ax[piv + 1] - grid.h) < 1e-9 and abs(ax[piv - 1] + grid.h) < 1e-9):
         bad.append(f"neighbours of the origin are {ax[piv - 1]!r}, {ax[piv + 1]!r} with h = {grid.h!r}")
     for j in range(1, len(ax) - 1, 2):
@@ -276,19 +280,23 @@ def h_refine_pstep(ctx, nl, nr, k):
     """refinement of a probability-step grid (its own `middle`: +-h/2 next to the origin, the equal-mass point elsewhere, found by a
     root search modelled by its contract) over an abstract Lévy measure"""
     axis, h, pivot = sym_axis(ctx, nl, nr)
-    nu = A.AbsMeasure(ctx, "nu", finite_activity=True)
-    grid = GS.CTMCGridProbabilityStep.__new__(GS.CTMCGridProbabilityStep)
-    GS.CTMCGrid.__init__(grid, h=h, origin_coordinate=pivot, axes=[axis])
-    grid.minimum_probability_step = 0.05
-    grid.levy_measure = nu
-    lam = ctx.real("intensity")
-    ctx.assume(lam > 0)
-    grid.intensity_of_jumps = lam
+    model = A.abs_levy_model(ctx, "nu", sigma=0.0, a=0.0, finite_activity=True)
+    nu = model.levy_triplet.nu
+    # the real constructor, with the two axis builders (root searches over the measure) replaced by the given strictly increasing half axes
+    saved = GS.compute_left_axis, GS.compute_right_axis
+    GS.compute_left_axis = lambda h, levy_measure, minimum_probability_step: np.array(list(axis[:pivot]), dtype=object)
+    GS.compute_right_axis = lambda h, levy_measure, minimum_probability_step: np.array(list(axis[pivot + 1:]), dtype=object)
+    try:
+        grid = GS.CTMCGridProbabilityStep(h=h, model=model, minimum_probability_step=0.05)
+    finally:
+        GS.compute_left_axis, GS.compute_right_axis = saved
+    ctx.assume(grid.intensity_of_jumps > 0)
+    axis = grid.axes[0]
     # positive mass on every gap (otherwise the equal-mass point is not unique and the grid is degenerate)
     for j in range(len(axis) - 1):
         if j not in (pivot - 1, pivot):
             ctx.assume(SymReal((nu.neg_term if j < pivot else nu.pos_term)(0, axis[j], axis[j + 1])) > 0)
-    rp = (replay_pstep, lambda m: {})
+    rp = (replay_pstep, lambda m: {"k": k})
     info = {"nl": nl, "nr": nr, "k": k}
     hk = h
     for step in range(k):
